@@ -76,8 +76,37 @@ def P(name, row, T, ctype, attrs="", dir="in", **kw):
     return d
 
 
+VECTOR_ROWS = ["V1in", "V1out", "V1inout", "V1outalloc", "V1inoutalloc"]
 NUM_T_ALL = sorted(INT_TYPES) + sorted(FLT_TYPES)
 NUM_T = NUM_T_ALL
+
+
+def has_vector(f):
+    return any(p["row"] in VECTOR_ROWS for p in f["params"]) or bool(f.get("ret") and f["ret"]["row"] == "V")
+
+
+def without_vectors(lib):
+    """The library without its std::vector functions.  Used for configurations with F_CFI: std::vector
+    together with F_CFI is a recorded finding (C05 probe:vector-with-cfi - the wrapper does not compile),
+    so that shape is excluded by construction.  -> (library, number of functions removed)"""
+    keep = [f for f in lib["funcs"] if not has_vector(f)]
+    nrem = len(lib["funcs"]) - len(keep)
+    classes = []
+    for c in lib.get("classes", []):
+        c2 = dict(c)
+        for k in ("methods", "statics"):
+            c2[k] = [f for f in c[k] if not has_vector(f)]
+            nrem += len(c[k]) - len(c2[k])
+        if not c2["methods"]:
+            # (the life-cycle plan needs one method: the first one, without its vector result)
+            import copy
+            m = copy.deepcopy(c["methods"][0])
+            m["ret"] = None
+            for call in m["calls"]:
+                call["outputs"].pop("rv", None)
+            c2["methods"] = [m]
+        classes.append(c2)
+    return dict(lib, funcs=keep, classes=classes), nrem
 
 
 @st.composite
@@ -85,8 +114,13 @@ def param(draw, i, lang, for_fortran=True, allowed=None, types=None):
     n = "a%d" % i
     NUM_T = [t for t in NUM_T_ALL if types is None or t in types]
     rows = ["N1", "N1", "N2in", "N2out", "N2inout", "B1", "B1out", "B1inout", "S1in", "S1out", "N3in", "N3inout", "N3out", "S1c"]
+    rows.append("S1inout")
     if lang == "c++":
         rows += ["N2ref", "N2refout", "S3in", "S3out", "S3inout", "S3val"]
+        if for_fortran:
+            # declarations.rst "std::vector" (Fortran API: assumed-shape arrays; the C API of a vector
+            # argument is not documented, so the C front end does not use these rows)
+            rows += VECTOR_ROWS
     if allowed is not None:
         rows = [r for r in rows if r in allowed]
     row = draw(st.sampled_from(rows))
@@ -115,6 +149,16 @@ def param(draw, i, lang, for_fortran=True, allowed=None, types=None):
         return [P(n, row, "char", "char %s" % n)]
     if row == "S1out":
         return [P(n, row, "char", "char *%s" % n, "+intent(out)+charlen(20)", "out", charlen=20)]
+    if row == "S1inout":
+        return [P(n, row, "char", "char *%s" % n, "+intent(inout)", "inout")]
+    if row in VECTOR_ROWS:
+        T = draw(st.sampled_from(["int", "double", "long"]))
+        if row == "V1in":
+            return [P(n, row, T, "const std::vector<%s> &%s" % (T, n))]
+        attrs, d = {"V1out": ("+intent(out)", "out"), "V1inout": ("", "inout"),
+                    "V1outalloc": ("+intent(out)+deref(allocatable)", "out"),
+                    "V1inoutalloc": ("+intent(inout)+deref(allocatable)", "inout")}[row]
+        return [P(n, row, T, "std::vector<%s> &%s" % (T, n), attrs, d)]
     if row == "S3in":
         return [P(n, row, "string", "const std::string &%s" % n)]
     if row == "S3val":
@@ -147,6 +191,7 @@ def result(draw, lang, for_fortran=True, allowed=None, types=None):
             # a std::string returned by value has no plain C wrapper (documented: only the
             # buffer variant for Fortran is created), so the C front end does not use it
             rows.append("S3")
+            rows.append("V")           # vectors.yaml ReturnVectorAlloc: allocatable array result
     if allowed is not None:
         rows = [x for x in rows if x in allowed]
     r = draw(st.sampled_from(rows))
@@ -163,6 +208,9 @@ def result(draw, lang, for_fortran=True, allowed=None, types=None):
         return dict(row="S1", T="char", ctype="const char *", attrs="")
     if r == "S1len":
         return dict(row="S1len", T="char", ctype="const char *", attrs="+len(30)", flen=30)
+    if r == "V":
+        T = draw(st.sampled_from(["int", "double"]))
+        return dict(row="V", T=T, ctype="std::vector<%s>" % T, attrs="")
     if r == "S3":
         return dict(row="S3", T="string", ctype="const std::string", attrs="")
     if r == "S3ref":
@@ -215,6 +263,21 @@ def call_vector(draw, f, for_fortran=True):
             flen = max(len(text), draw(st.sampled_from([1, 4, 8, 12])))
             ins[p["name"]] = dict(text=text, flen=flen)
             outs[p["name"]] = dict(text=draw(text_of(10, allow_trailing_blank=False)), flen=flen)
+        elif row == "S1inout":
+            # the caller's character variable holds text (blank padded to flen); the library may write any
+            # C string of up to flen characters into the buffer it receives
+            text = draw(text_of(8))
+            flen = max(len(text), draw(st.sampled_from([1, 4, 8, 12])))
+            ins[p["name"]] = dict(text=text, flen=flen)
+            outs[p["name"]] = dict(text=draw(text_of(12, allow_trailing_blank=False))[:flen].rstrip(" "), flen=flen)
+        elif row in VECTOR_ROWS:
+            if row != "V1in":
+                outs[p["name"]] = [draw(value_of(T, for_fortran)) for _ in range(draw(st.sampled_from([0, 0, 1, 2, 5, 7])))]
+            if row in ("V1in", "V1inout", "V1inoutalloc"):
+                ins[p["name"]] = [draw(value_of(T, for_fortran)) for _ in range(draw(st.sampled_from([0, 1, 2, 5])))]
+            if row == "V1out":
+                sizes["flen:" + p["name"]] = draw(st.sampled_from([0, 1, 3, 5]))       # extent of the caller's array
+                outs[p["name"] + "#extent"] = sizes["flen:" + p["name"]]
         elif row == "N3in":
             n = draw(st.sampled_from([0, 1, 2, 5]))
             ins[p["name"]] = [draw(value_of(T, for_fortran)) for _ in range(n)]
@@ -228,6 +291,8 @@ def call_vector(draw, f, for_fortran=True):
     if r:
         if r["row"] in ("N", "B", "C"):
             outs["rv"] = draw(value_of(r["T"], for_fortran))
+        elif r["row"] == "V":
+            outs["rv"] = [draw(value_of(r["T"], for_fortran)) for _ in range(draw(st.sampled_from([0, 0, 1, 2, 5])))]
         else:
             outs["rv"] = dict(text=draw(text_of(12, minlen=(0 if r["row"] != "S1" else 0), allow_trailing_blank=False)),
                               flen=r.get("flen"))
@@ -324,7 +389,8 @@ def default_func(draw, lang, fid, name, for_fortran=True):
         params.append(P("a%d" % j, "N1" if T != "bool" else "B1", T, "%s a%d" % (T, j)))
     nd = draw(st.integers(1, 3))
     # (the declaration parser accepts a single literal or identifier as default value, no sign)
-    choices = [("int", "3", 3), ("bool", "true", True), ("double", "1.5", 1.5), ("long", "7", 7), ("bool", "false", False)]
+    choices = [("int", "3", 3), ("bool", "true", True), ("double", "1.5", 1.5), ("long", "7", 7), ("bool", "false", False),
+               ("int", "0", 0), ("double", "0.0", 0.0)]
     for j in range(nd):
         T, text, val = draw(st.sampled_from(choices))
         p = P("d%d" % j, "N1" if T != "bool" else "B1", T, "%s d%d" % (T, j))
@@ -493,26 +559,38 @@ def expected_call(f, call, site, front, serial_of=None, op=None):
             out.append("A %d i %d" % (idx, len(ins[p["implied_of"]])))     # implied = size of the named array
         elif p.get("size_for") or row in ("N1", "N2in", "N2inout", "N2ref", "B1", "B1inout", "S1c"):
             out.append("A %d %s" % (idx, vtext(T, ins[nm])))
-        elif row in ("S1in", "S3in", "S3val", "S3inout"):
+        elif row in ("S1in", "S3in", "S3val", "S3inout", "S1inout"):
             text = ins[nm]["text"]
             if front == "fortran":
                 text = text.rstrip(" ")        # trailing blanks trimmed, NUL terminated / trimmed length
             out.append("A %d s %s" % (idx, esc(text)))
-        elif row in ("N3in", "N3inout"):
+        elif row in ("N3in", "N3inout", "V1in", "V1inout", "V1inoutalloc"):
             out.append("A %d %s" % (idx, atext(T, ins[nm])))
     r = f["ret"]
-    if r:
+    if r and r["row"] == "V":
+        out.append("O rv " + atext(r["T"], outs["rv"]))
+    elif r:
         out.append("O rv " + obs_text(r["T"], r["row"], outs["rv"], front, r.get("flen")))
     for idx, p in enumerate(f["params"]):
         nm = p["name"]
         if nm in outs:
-            if p["row"] in ("N3inout", "N3out"):
+            if p["row"] in ("N3inout", "N3out", "V1outalloc", "V1inoutalloc"):
                 out.append("O %d %s" % (idx, atext(p["T"], outs[nm])))
-            elif p["T"] in ("string",) or p["row"] == "S1out":
+            elif p["row"] in ("V1out", "V1inout"):
+                # fixed-size caller array: the first min(extent, vector size) values are copied back
+                out.append("O %d %s" % (idx, atext(p["T"], outs[nm][:vector_extent(p, call)])))
+            elif p["T"] in ("string",) or p["row"] in ("S1out", "S1inout"):
                 out.append("O %d %s" % (idx, obs_text(p["T"], p["row"], outs[nm], front, outs[nm]["flen"])))
             else:
                 out.append("O %d %s" % (idx, vtext(p["T"], outs[nm])))
     return out
+
+
+def vector_extent(p, call):
+    """Extent of the caller's (fixed-size) Fortran array for a V1out / V1inout argument."""
+    if p["row"] == "V1out":
+        return call["outputs"][p["name"] + "#extent"]
+    return len(call["inputs"][p["name"]])
 
 
 def obs_text(T, row, v, front, flen):
@@ -755,8 +833,10 @@ def body_lines(f, this=False):
             body.append("    " + log_scalar(T, idx, "*" + nm))
         elif row == "N2ref":
             body.append("    " + log_scalar(T, idx, nm))
-        elif row == "S1in":
+        elif row in ("S1in", "S1inout"):
             body.append("    vf_as(%d, %s, -1);" % (idx, nm))
+        elif row in ("V1in", "V1inout", "V1inoutalloc"):
+            body += ["    " + l for l in log_array(T, idx, nm + ".data()", "(int) %s.size()" % nm)]
         elif row in ("S3in", "S3val", "S3inout"):
             body.append("    vf_as(%d, %s.data(), (int) %s.size());" % (idx, nm, nm))
         elif row in ("N3in", "N3inout"):
@@ -772,7 +852,18 @@ def body_lines(f, this=False):
         elif row in ("N2ref", "N2refout"):
             body.append("    { static const %s vf_tab[] = {%s}; %s = vf_tab[vf_call %% %d]; }"
                         % (T, ", ".join(c_lit(T, v) for v in vals), nm, ncall))
-        elif row == "S1out":
+        elif row in VECTOR_ROWS:
+            flat = [x for v in vals for x in v]
+            offs = []
+            o = 0
+            for v in vals:
+                offs.append(o)
+                o += len(v)
+            body.append("    { static const %s vf_tab[] = {%s}; static const int vf_off[] = {%s}; static const int vf_len[] = {%s};"
+                        % (T, ", ".join(c_lit(T, x) for x in flat) or "0", ", ".join(map(str, offs)), ", ".join(str(len(v)) for v in vals)))
+            body.append("      %s.assign(vf_tab + vf_off[vf_call %% %d], vf_tab + vf_off[vf_call %% %d] + vf_len[vf_call %% %d]); }"
+                        % (nm, ncall, ncall, ncall))
+        elif row in ("S1out", "S1inout"):
             body.append("    { static const char *vf_tab[] = {%s}; strcpy(%s, vf_tab[vf_call %% %d]); }"
                         % (", ".join(c_str(v["text"]) for v in vals), nm, ncall))
         elif row in ("S3out", "S3inout"):
@@ -794,6 +885,17 @@ def body_lines(f, this=False):
         if r["row"] in ("N", "B", "C"):
             body.append("    { static const %s vf_tab[] = {%s}; return vf_tab[vf_call %% %d]; }"
                         % (r["T"], ", ".join(c_lit(r["T"], v) for v in vals), ncall))
+        elif r["row"] == "V":
+            flat = [x for v in vals for x in v]
+            offs = []
+            o = 0
+            for v in vals:
+                offs.append(o)
+                o += len(v)
+            body.append("    { static const %s vf_tab[] = {%s}; static const int vf_off[] = {%s}; static const int vf_len[] = {%s};"
+                        % (r["T"], ", ".join(c_lit(r["T"], x) for x in flat) or "0", ", ".join(map(str, offs)), ", ".join(str(len(v)) for v in vals)))
+            body.append("      return std::vector<%s>(vf_tab + vf_off[vf_call %% %d], vf_tab + vf_off[vf_call %% %d] + vf_len[vf_call %% %d]); }"
+                        % (r["T"], ncall, ncall, ncall))
         elif r["row"] in ("S1", "S1len"):
             body.append("    { static const char *vf_tab[] = {%s}; return vf_tab[vf_call %% %d]; }"
                         % (", ".join(c_str(v["text"]) for v in vals), ncall))
